@@ -82,14 +82,21 @@ impl ISecureFramer for NullFramer {
   fn write_msg_split(&mut self, msg: Msg) -> Result<(Bytes, Option<Bytes>), ZmqError> {
     let payload = msg.data_bytes().unwrap_or_default();
     let payload_len = payload.len();
-    let is_more = msg.flags().contains(MsgFlags::MORE);
+    let flags = msg.flags();
+    let mut zmtp_flags = 0u8;
+    if flags.contains(MsgFlags::MORE) {
+      zmtp_flags |= 0x01;
+    }
+    if flags.contains(MsgFlags::COMMAND) {
+      zmtp_flags |= 0x04;
+    }
 
     let mut hdr = BytesMut::with_capacity(9);
     if payload_len <= 255 {
-      hdr.put_u8(if is_more { 0x01 } else { 0x00 });
+      hdr.put_u8(zmtp_flags);
       hdr.put_u8(payload_len as u8);
     } else {
-      hdr.put_u8(if is_more { 0x03 } else { 0x02 });
+      hdr.put_u8(zmtp_flags | 0x02);
       hdr.put_u64(payload_len as u64);
     }
 
